@@ -76,8 +76,16 @@ def _scalar(rng, n, wide=True):
 
 
 def _z(rng, n):
+    # (shapes: a hash beginning with zero bytes, with only the top bit set, tiny)
     return rng.weighted([(1, 1), (n - 1, 1), (n, 1), (n + 1, 1), (2 * n % (1 << 256) or 1, 1),
-                         ((1 << 256) - 1, 1), (rng.between(1, (1 << 256) - 1), 6), (rng.between(1, max(2, n - 1)), 3)])
+                         ((1 << 256) - 1, 1), (rng.between(1, (1 << 256) - 1), 6), (rng.between(1, max(2, n - 1)), 3),
+                         (rng.bits(248) or 1, 1.5), (rng.bits(200) or 1, 0.5), (1 << 255, 0.5), (rng.bits(16) or 1, 0.5)])
+
+
+def _d(rng, n):
+    # (shapes: a key shorter than its field, the extremes)
+    return rng.weighted([(1, 1), (2, 0.5), (n - 1, 1), (n - 2, 0.5), (rng.between(1, n - 1), 6),
+                         (rng.between(1, min(n - 1, (1 << 248) - 1)), 1), (rng.between(1, min(n - 1, (1 << 64))), 0.5)])
 
 
 def gen_plan(rng, tier, index, config=None):
@@ -177,7 +185,7 @@ def gen_plan(rng, tier, index, config=None):
         elif op == "ecdh":
             steps.append({"op": "ecdh", "dA": r.between(1, n - 1), "dB": r.between(1, n - 1)})
         elif op == "sign":
-            d = r.weighted([(1, 1), (n - 1, 1), (r.between(1, n - 1), 6)])
+            d = _d(r, n)
             if signed and r.chance(0.3):
                 d = signed[-1][0]
             z = _z(r, n)
@@ -187,14 +195,16 @@ def gen_plan(rng, tier, index, config=None):
             signed.append((d, z, sr, ss, R))
             steps.append({"op": "sign", "d": d, "z": z})
         elif op == "keysign":
-            d = r.between(1, n - 1)
-            steps.append({"op": "keysign", "d": d, "h": r.bytes(32).hex(), "other": r.between(1, n - 1),
+            d = _d(r, n)
+            hh = r.weighted([(r.bytes(32), 5), (b"\0" + r.bytes(31), 1.5), (bytes(4) + r.bytes(28), 0.5), (r.bytes(31) + b"\0", 0.5),
+                             (b"\x80" + bytes(31), 0.3)])
+            steps.append({"op": "keysign", "d": d, "h": hh.hex(), "other": r.between(1, n - 1),
                           "forge": r.sample(["flip_s", "r_plus_n", "s_plus_n", "r_zero", "s_zero", "r_n", "s_n", "swap", "s_plus_1"], 3)})
         elif op in ("verify", "recover"):
             if signed and r.chance(0.6):
                 d, z, sr, ss, R = r.pick(signed)
             else:
-                d = r.between(1, n - 1)
+                d = _d(r, n)
                 z = _z(r, n)
                 sr, ss, R, _ = C.sign_rfc6979(d, z)
                 signed.append((d, z, sr, ss, R))
